@@ -68,6 +68,7 @@ def build(flavour):
     W['S1'] = mk('S1', W['S0'])
     W['P0'] = mk('P0')
     W['P1'] = mk('P1', W['P0'])
+    W['P2'] = mk('P2', W['P0'])      # a sibling of P1: two incomparable extendors of P0
     K = type('K', (), {})
     classImplements(K, W['R1'])
     W['SK'] = implementedBy(K)
@@ -84,7 +85,7 @@ def build(flavour):
 KEYS_FULL = [((), 'P0'), ((), None), (('R0',), 'P0'), (('R1',), 'P0'), (('R0',), 'P1'),
              ((None,), 'P0'), (('R0',), None), (('R1',), None), (('SK',), 'P0'),
              (('R0', 'S0'), 'P0'), (('R1', 'S0'), 'P0'), (('R0', 'S1'), 'P0'),
-             (('R1', 'S1'), 'P1'), (('R0', 'S0'), None)]
+             (('R1', 'S1'), 'P1'), (('R0', 'S0'), None), (('R0',), 'P2')]
 KEYS_SMALL = [((), 'P0'), (('R0',), 'P0'), (('R1',), 'P0'), (('R0',), 'P1'),
               ((None,), 'P0'), (('R1',), None), (('R0', 'S0'), 'P0'), (('R1', 'S1'), 'P0')]
 LOOKS = [(), ('R0',), ('R1',), ('R2',), ('SK',), ('R1', 'S1'), ('R0', 'S1'), ('R1', 'S0'), ('R2', 'S1')]
@@ -166,7 +167,7 @@ def order_ok(got, exp, M):
 def check(W, M):
     reg = W['reg']
     for lreq in LOOKS:
-        for lp in ('P0', 'P1', None):
+        for lp in ('P0', 'P1', 'P2', None):
             required = [W[x] for x in lreq]
             got = reg.subscriptions(required, W[lp])
             exp = []
@@ -273,10 +274,10 @@ def run(ctx):
     for impl in ('c', 'py'):
         for flavour in FLAVOURS:
             plans = [(dict(flavour=flavour, keys='full'), 2, 'full'),
-                     (dict(flavour=flavour, keyidx=[2, 3, 5, 7, 10, 11], query_between=True), 3, 'reduced')]
+                     (dict(flavour=flavour, keyidx=[2, 3, 4, 7, 10, 14], query_between=True), 3, 'reduced')]
             if not quick:
                 plans = [(dict(flavour=flavour, keys='full'), 3, 'full'),
-                         (dict(flavour=flavour, keyidx=[2, 3, 5, 7, 10, 11], query_between=True), 4, 'reduced')]
+                         (dict(flavour=flavour, keyidx=[2, 3, 4, 5, 7, 10, 11, 14], query_between=True), 4, 'reduced')]
             for cfg, depth, label in plans:
                 r = bfs(ctx, impl, 'expand', cfg, int(ctx.opts.get('depth', depth)),
                         label='%s/%s' % (flavour, label))
